@@ -39,7 +39,8 @@ IsProbe(t) == t \notin {"testify", "matryer"}
 
 \* was interface L of Go package g to be mocked?
 ExpectSelected(c, g, L) ==
-  IF g \in Configured THEN Selected(c, g, L, L \in ListedLetters(g))
+  IF L \notin DeclNow(c, g) THEN FALSE
+  ELSE IF g \in Configured THEN Selected(c, g, L, L \in ListedLetters(g))
   ELSE \E p \in Configured : g \in Subs[p] /\ Discovered(c, p, g) /\ Selected(c, p, L, FALSE)
 
 Ev == Trace[l]
